@@ -32,5 +32,8 @@ def check(ctx, run):
     safety.forbidden_calls(ctx, run, 'R02.13', ROOTS, ('String::from_utf8_lossy', 'from_utf8_lossy', 'String::from_utf16_lossy', 'char::from_u32_unchecked'),
                            'the parser', 'ill-formed input is silently repaired (U+FFFD substituted) instead of being rejected with an error',
                            only=lambda p_: p_.startswith(('util::', 'parser::', 'jsonpath::parser::', 'keypath::')))
+    import boundaries
+    _bf = lambda p_: p_.startswith(('parser::', 'util::'))
+    boundaries.check(ctx, run, 'R02.14', [p_ for p_ in sorted(boundaries.load_baseline() or {}) if _bf(p_)], 'the JSON text parser rejects input')
     return report.finish(run, level='other', explanation=EXPLANATION,
                          assumptions=["fast_float2::parse is correctly rounded; str::parse::<u64/i64> is exact or Err (trusted)", "reviewed assumption table assume.json", "A3"])
